@@ -12,6 +12,14 @@ func runOther(t *testing.T, spec *hutil.Spec, out *hutil.Out) {
 	switch spec.Property {
 	case "C09":
 		runC09(spec, out)
+		if spec.Worker == 0 && spec.Only == "" {
+			runIdlePause(out)
+		}
+	case "C19":
+		// C19's real-time part (the rest of C19 runs in h_scn / h_race)
+		if spec.Worker == 0 && spec.Only == "" {
+			runStall(out)
+		}
 	default:
 		out.HarnessErr = "unknown property " + spec.Property
 	}
@@ -29,6 +37,12 @@ func replayOther(t *testing.T, spec *hutil.Spec, out *hutil.Out, tier string) {
 		fmt.Printf("cell %s\nfile %q\nverdict: %v\n", w.Cell.Name(), render(w.Cell.File.Format, w.Cell.File.Items, w.Cell.File.Layout), err)
 		if err != nil {
 			out.Violate("C09|replay", err.Error(), spec.Replay)
+		}
+	case "realtime":
+		if spec.Property == "C19" {
+			runStall(out)
+		} else {
+			runIdlePause(out)
 		}
 	default:
 		out.HarnessErr = "unknown replay tier " + tier
